@@ -383,12 +383,16 @@ func (i *interpreter) assertPC(t *smt.Term) {
 
 func (i *interpreter) pushDecision(d Decision) {
 	i.ps.trace = append(i.ps.trace, d)
+	if i.ps.pos >= len(i.ps.spec.Dec) && len(i.ps.trace) > len(i.ps.spec.Dec) {
+		i.ps.edges++ // a decision made on this path for the first time
+	}
 	if len(i.ps.trace) > i.cfg.MaxDecisions {
 		i.inconclusive("decision budget exceeded (unwinding bound)")
 	}
 }
 
 func (i *interpreter) altSpec(d Decision, m smt.Model) {
+	i.ps.edges++
 	dec := make([]Decision, len(i.ps.trace)+1)
 	copy(dec, i.ps.trace)
 	dec[len(dec)-1] = d
